@@ -28,15 +28,18 @@ def unparse(node):
 
 class Module:
 
-    def __init__(self, name, path, src, records=None):
+    def __init__(self, name, path, src, records=None, tree=None):
         self.name = name  # 'nodes', 'smtlib', 'bin/ddsmt'
         self.path = path
         self.src = src
         self.lines = src.splitlines()
-        try:
-            self.tree = ast.parse(src, filename=path)
-        except SyntaxError as e:
-            raise AnalysisError(f'{path} does not parse: {e}')
+        if tree is not None:
+            self.tree = tree
+        else:
+            try:
+                self.tree = ast.parse(src, filename=path)
+            except SyntaxError as e:
+                raise AnalysisError(f'{path} does not parse: {e}')
         # calls of private helpers that did not exist on the pinned tree
         # are replaced by the helper's body (sa/inline.py)
         self.inline_notes = []
@@ -166,6 +169,15 @@ class Module:
         }
 
 
+PINNED_MODULES = {
+    '__init__', '__main__', 'argparsemod', 'checker', 'cli', 'debug_utils',
+    'mutator_utils', 'mutators', 'mutators_arithmetic', 'mutators_boolean',
+    'mutators_bv', 'mutators_core', 'mutators_datatypes', 'mutators_fp',
+    'mutators_smtlib', 'mutators_strings', 'nodeio', 'nodes', 'options',
+    'progress', 'smtlib', 'strategy_ddmin', 'strategy_hierarchical',
+    'tmpfiles', 'version'}
+
+
 class Program:
 
     PKG_FILES_MIN = 20
@@ -185,10 +197,48 @@ class Program:
             from .inline import new_records
             records = new_records(list(srcs.values()))
         self.new_records = records or {}
+        # private modules that did not exist on the pinned tree and are
+        # imported back by name (``from ._consts import is_int_const, ..``):
+        # their top-level statements are spliced in where the import stands,
+        # so that a function that merely moved is analysed where it was
+        trees = {}
+        for fn in sorted(srcs):
+            try:
+                trees[fn[:-3]] = ast.parse(srcs[fn], filename=os.path.join(
+                    pkgdir, fn))
+            except SyntaxError as e:
+                raise AnalysisError(f'{fn} does not parse: {e}')
+        self.spliced = {}
+        if not os.environ.get('VERIF_NO_INLINE'):
+            newmods = {n for n in trees if n.startswith('_')
+                       and not n.startswith('__') and n not in PINNED_MODULES}
+            for name, t in trees.items():
+                if name in newmods:
+                    continue
+                i = 0
+                while i < len(t.body):
+                    st = t.body[i]
+                    if isinstance(st, ast.ImportFrom) and st.level == 1 and \
+                            st.module in newmods and not any(
+                                a.asname for a in st.names):
+                        import copy
+                        body = [copy.deepcopy(x) for x in trees[
+                            st.module].body if not (
+                                isinstance(x, ast.Expr) and isinstance(
+                                    x.value, ast.Constant))
+                            and not (isinstance(x, ast.ImportFrom)
+                                     and x.level == 1
+                                     and x.module == name)]
+                        t.body[i:i + 1] = body
+                        self.spliced.setdefault(name, []).append(st.module)
+                        i += len(body)
+                        continue
+                    i += 1
         for fn in sorted(srcs):
             p = os.path.join(pkgdir, fn)
             name = fn[:-3]
-            self.modules[name] = Module(name, p, srcs[fn], records)
+            self.modules[name] = Module(name, p, srcs[fn], records,
+                                        tree=trees[name])
         for fn in ('ddsmt', 'ddsmt-profile', 'smt2info'):
             p = os.path.join(self.root, 'bin', fn)
             if os.path.isfile(p):
